@@ -15,6 +15,7 @@ All statements are for every history — any length, any number of aircraft, any
 any time stamps (equal, decreasing) — by induction over the history.
 -/
 import Rs1090.Proofs.Snapshot
+import Rs1090.Proofs.SnapshotView
 namespace Rs1090.Props.C12
 open Rs1090.Model.Snapshot Rs1090.Spec.Snapshot Rs1090.Proofs.Snapshot
 
@@ -147,5 +148,175 @@ example : keys (run [rA1, rB1, rA2, rX, rB2]) = ["4ca2d4", "3c6444"] := by decid
 /-- a `#` call sign is refused by the DF17 arm -/
 example : (entryOf "4ca2d4" (run [⟨1, some "4ca2d4", .adsb (.bds08 "A#")⟩])).map (·.callsign) = some none := by
   decide
+
+/-! ## From the received frames (end to end inside the model)
+
+`runFrames h` (Model/SnapshotView.lean) is the table after a history `h` of receptions
+(`Rx` = time stamp, frame bytes, and the position `decode_position` gave the message, an input):
+every frame goes through the decoder model `Message.tryFrom` (C01/C07's model of
+`Message::try_from` + `serde_json`), the record view is read off the resulting JSON by
+`viewOfJson` (the Lean counterpart of the harness's `view_of`), and `update` is applied.  The
+theorems above are transported to such histories: "the displayed address" is now literally the
+`icao24` member of the JSON the decoder model returns for the frame
+(`ShowsIcao24 frame k` / `icao24Of frame = some k`; `objGet` is C07/C11's member lookup), and
+`ownFrames k h` is the sub-history of the receptions whose frame decodes to JSON with `icao24` = `k`.
+All statements hold for every history of receptions and every position input. -/
+
+section Frames
+open Rs1090 Rs1090.Model Rs1090.Model.Message Rs1090.Model.SnapshotView Rs1090.Proofs.SnapshotView
+open Rs1090.Proofs.Filters
+
+/-- **`view_addr`**: the address displayed by the view of a decoded message is the text of the
+    `icao24` member of its JSON (by C07/C11's lookup `objGet`) -/
+theorem view_addr (ts : Nat) (frame : List Nat) (kvs : List (Key × Json)) (pos : Option (Val × Val)) :
+    (viewOfJson ts frame (.obj kvs) pos).addr = (objGet kvs (key! "icao24")).bind valText :=
+  Rs1090.Proofs.SnapshotView.view_addr ts frame kvs pos
+
+/-- … hence the record of a reception displays `k` iff its frame decodes to JSON whose `icao24`
+    member is `k` (a refused frame displays nothing), whatever the position input -/
+theorem record_addr_iff (x : Rx) (k : Addr) : x.record.addr = some k ↔ ShowsIcao24 x.frame k := by
+  rw [record_addr, showsIcao24_iff]
+
+/-- **The displayed address is the address the frame carries.**  A frame decodes to JSON whose
+    `icao24` member is `k` exactly when the decoder accepts it, its downlink format is one of the
+    nine address-carrying ones, and `k` is the six-hex-digit text of the address in the frame: the
+    announced address field (bits 8..32) for DF 11, 17, 18; the Mode S checksum remainder
+    (address overlaid on the parity, C02 `ap_recover`) for DF 0, 4, 5, 16, 20, 21.  Frames of
+    DF19 / DF24‥31 (and refused frames) show no address. -/
+theorem shows_iff_frame_address (bs : List Nat) (k : Addr) :
+    ShowsIcao24 bs k ↔
+      (tryFrom bs).isOk = true ∧ [0, 4, 5, 11, 16, 17, 18, 20, 21].contains (bitsBE bs 0 5) = true ∧
+      ∃ a, k = hex6 a ∧
+        ([11, 17, 18].contains (bitsBE bs 0 5) = true → a = bitsBE bs 8 24) ∧
+        ([0, 4, 5, 16, 20, 21].contains (bitsBE bs 0 5) = true →
+          modesChecksum bs (frameBits (bs.headD 0)) = .ok a) := by
+  constructor
+  · intro hs
+    have hk := (showsIcao24_iff bs k).mp hs
+    obtain ⟨kvs, j, hok, _, _⟩ := hs
+    cases hdf : [0, 4, 5, 11, 16, 17, 18, 20, 21].contains (bitsBE bs 0 5) with
+    | false => rw [icao24Of_none bs hdf] at hk; cases hk
+    | true =>
+      obtain ⟨a, ha, h1, h2⟩ := icao24Of_frame bs _ hok hdf
+      rw [ha] at hk
+      exact ⟨by rw [hok]; rfl, rfl, a, (Option.some.inj hk).symm, h1, h2⟩
+  · rintro ⟨hok, hdf, a, rfl, h1, h2⟩
+    cases hd : tryFrom bs with
+    | err e => rw [hd] at hok; cases hok
+    | panic x => rw [hd] at hok; cases hok
+    | ok d =>
+      obtain ⟨a', ha', h1', h2'⟩ := icao24Of_frame bs d hd hdf
+      have : a' = a := by
+        generalize bitsBE bs 0 5 = id at hdf h1 h2 h1' h2'
+        have hsplit : [11, 17, 18].contains id = true ∨ [0, 4, 5, 16, 20, 21].contains id = true := by
+          simp only [List.contains_cons, List.contains_nil, Bool.or_false, Bool.or_eq_true, beq_iff_eq] at hdf ⊢
+          omega
+        rcases hsplit with hs | hs
+        · rw [h1 hs, h1' hs]
+        · have e1 := h2 hs
+          have e2 := h2' hs
+          rw [e1] at e2
+          exact (Outcome.ok.inj e2).symm
+      rw [showsIcao24_iff, ha', this]
+
+/-- the frame-level table is the view-level table of the derived records -/
+theorem runFrames_eq_run (h : List Rx) : runFrames h = run (h.map Rx.record) := runFrames_eq h
+
+/-- the derived records of `k` are the records of `k`'s receptions -/
+theorem own_records (k : Addr) (h : List Rx) : own k (h.map Rx.record) = (ownFrames k h).map Rx.record :=
+  own_map k h
+
+/-- **Keys are the addresses the frames show**: `k` has an entry iff some frame of the history
+    decodes to JSON whose `icao24` member is `k`, and that entry is filed under its own `icao24`. -/
+theorem frames_keys_are_addresses (k : Addr) (h : List Rx) :
+    ((entryOf k (runFrames h)).isSome ↔ ∃ x, x ∈ h ∧ ShowsIcao24 x.frame k) ∧
+    (∀ e, entryOf k (runFrames h) = some e → e.icao24 = k) := by
+  rw [runFrames_eq]
+  obtain ⟨h1, h2⟩ := keys_are_addresses k (h.map Rx.record)
+  refine ⟨h1.trans ?_, h2⟩
+  constructor
+  · rintro ⟨r, hr, ha⟩
+    obtain ⟨x, hx, rfl⟩ := List.mem_map.mp hr
+    exact ⟨x, hx, (record_addr_iff x k).mp ha⟩
+  · rintro ⟨x, hx, hs⟩
+    exact ⟨x.record, List.mem_map_of_mem hx, (record_addr_iff x k).mpr hs⟩
+
+/-- … one entry per address … -/
+theorem frames_one_entry_per_address (h : List Rx) : (keys (runFrames h)).Nodup := by
+  rw [runFrames_eq]; exact one_entry_per_address _
+
+/-- … and the key set is the set of addresses the accepted frames carry -/
+theorem frames_keys_eq_addresses (k : Addr) (h : List Rx) :
+    k ∈ keys (runFrames h) ↔ ∃ x, x ∈ h ∧ ShowsIcao24 x.frame k := by
+  rw [mem_keys_iff_get]; exact (frames_keys_are_addresses k h).1
+
+/-- **Message count** = number of receptions whose frame shows `k`. -/
+theorem frames_count_eq (k : Addr) (h : List Rx) (e : Entry) (he : entryOf k (runFrames h) = some e) :
+    e.count = (ownFrames k h).length := by
+  rw [runFrames_eq] at he
+  rw [count_eq k _ e he, own_map, List.length_map]
+
+/-- **First / last seen** are the time stamps of the first and the last received of the
+    receptions whose frame shows `k`. -/
+theorem frames_first_last_seen (k : Addr) (h : List Rx) (e : Entry)
+    (he : entryOf k (runFrames h) = some e) :
+    (ownFrames k h).head?.map (·.ts) = some e.firstseen ∧
+    (ownFrames k h).getLast?.map (·.ts) = some e.lastseen := by
+  rw [runFrames_eq] at he
+  obtain ⟨h1, h2⟩ := first_last_seen k _ e he
+  rw [own_map] at h1 h2
+  rw [List.head?_map, Option.map_map] at h1
+  rw [List.getLast?_map, Option.map_map] at h2
+  have hf : ((fun r : Record => r.ts) ∘ Rx.record) = fun x : Rx => x.ts := by
+    funext x; exact record_ts x
+  rw [hf] at h1 h2
+  exact ⟨h1, h2⟩
+
+/-- **Non-interference, from frames.**  The entry of `k` after any interleaving of frames is the
+    entry after the sub-history of the frames whose decoded `icao24` is `k`. -/
+theorem frames_noninterference (k : Addr) (h : List Rx) :
+    entryOf k (runFrames h) = entryOf k (runFrames (ownFrames k h)) := by
+  rw [runFrames_eq, runFrames_eq]
+  exact (table_noninterference k _).trans (by rw [own_map])
+
+/-- … hence two histories with the same receptions of `k` agree on `k`'s entry. -/
+theorem frames_noninterference' (k : Addr) (h₁ h₂ : List Rx) (h : ownFrames k h₁ = ownFrames k h₂) :
+    entryOf k (runFrames h₁) = entryOf k (runFrames h₂) := by
+  rw [frames_noninterference k h₁, frames_noninterference k h₂, h]
+
+/-- **Provenance, from frames**: a value the entry of `k` holds for quantity `f` is carried, for
+    that quantity, by the record of a reception of the history whose frame shows `k`. -/
+theorem frames_provenance (k : Addr) (h : List Rx) (e : Entry) (he : entryOf k (runFrames h) = some e)
+    (f : Field) (v : Val) (hv : entryField e f = some v) :
+    ∃ x, x ∈ h ∧ ShowsIcao24 x.frame k ∧ v ∈ carried x.record f := by
+  rw [runFrames_eq] at he
+  obtain ⟨r, hr, ha, hc⟩ := provenance k _ e he f v hv
+  obtain ⟨x, hx, rfl⟩ := List.mem_map.mp hr
+  exact ⟨x, hx, (record_addr_iff x k).mp ha, hc⟩
+
+/-- frames that are refused, or of a format without address (DF19, DF24‥31), leave the table untouched -/
+theorem frames_no_address_no_effect (t : Table) (x : Rx) (h : icao24Of x.frame = none) :
+    update t x.record = t :=
+  no_address_no_effect t _ (by rw [record_addr]; exact h)
+
+/-! ### non-vacuity, on frames of the repository's own suite -/
+
+/-- `8d406b902015a678d4d220aa4bda` (DF17 identification, 406b90 "EZY85MH") -/
+private def fId : List Nat := [0x8d,0x40,0x6b,0x90,0x20,0x15,0xa6,0x78,0xd4,0xd2,0x20,0xaa,0x4b,0xda]
+/-- `02c18c3b323e4f` (DF0; address 471f65 recovered from the parity) -/
+private def f0 : List Nat := [0x02, 0xc1, 0x8c, 0x3b, 0x32, 0x3e, 0x4f]
+/-- a DF17 frame with a broken checksum: refused -/
+private def fBad : List Nat := [0x8d,0x40,0x6b,0x90,0x20,0x15,0xa6,0x78,0xd4,0xd2,0x20,0xaa,0x4b,0xdb]
+
+example : icao24Of fId = some "406b90" := by decide +kernel
+example : icao24Of f0 = some "471f65" := by decide +kernel
+example : icao24Of fBad = none := by decide +kernel
+example : (entryOf "406b90" (runFrames [⟨10, fId, none⟩, ⟨11, f0, none⟩, ⟨12, fBad, none⟩, ⟨9, fId, none⟩])).map
+    (fun e => (e.count, e.firstseen, e.lastseen, e.callsign)) = some (2, 10, 9, some "EZY85MH") := by
+  decide +kernel
+example : keys (runFrames [⟨10, fId, none⟩, ⟨11, f0, none⟩, ⟨12, fBad, none⟩, ⟨9, fId, none⟩]) = ["406b90", "471f65"] := by
+  decide +kernel
+
+end Frames
 
 end Rs1090.Props.C12
